@@ -6,7 +6,7 @@ import ast
 
 from ..kinds import KindInterp, Lin, Par, describe
 from ..loader import AnalysisError, Incomplete, World, module_of
-from ..mutate import edit_def, remove_stmt, replace_expr
+from ..mutate import edit_def, remove_stmt, replace_expr, variant
 from ..paths import exception_name, function_paths
 from ..run import Control
 from ..terms import facts as path_facts
@@ -101,12 +101,31 @@ def run(ctx, ck) -> None:
             if pieces.count(None) == 1:
                 for m in methods:
                     branches.setdefault(m, ''.join(m if x is None else x for x in pieces))
+    # any other dispatch: _get_func evaluated (sa/axinterp.py) on an operator whose method is m
+    missing = [m for m in methods if not isinstance(cls.own.get(branches.get(m) or ''), ast.FunctionDef)]
+    evaluated_raise: dict[str, str] = {}
+    if missing:
+        from ..axinterp import Func, Interp, Obj, Raised, Undecided
+
+        for m in missing:
+            it = Interp(world, table, budget=20_000)
+            try:
+                res = it.call_method(Obj(cls, {'method': m}), '_get_func')
+            except Raised as exc:
+                evaluated_raise[m] = exc.name
+                continue
+            except Undecided:
+                continue
+            if isinstance(res, Func) and isinstance(res.node, ast.FunctionDef) and cls.own.get(res.node.name) is res.node and not it.degraded:
+                branches[m] = res.node.name
+    _shared_memos(ctx, ck, cls)
     live: dict[str, ast.FunctionDef] = {}
     for m in methods:
         target = branches.get(m)
         fn = cls.own.get(target) if target else None
         ck.expect('Z1', isinstance(fn, ast.FunctionDef), get_func, f'method {m!r} dispatches to {target}',
-                  f'method {m!r} is advertised in METHODS but has no dispatch branch returning an existing kernel: applying the operator raises', instance=f'dispatch {m}')
+                  f'method {m!r} is advertised in METHODS but has no dispatch branch returning an existing kernel: applying the operator raises' + (f' ({evaluated_raise[m]} when _get_func is evaluated)' if m in evaluated_raise else ''),
+                  instance=f'dispatch {m}', semantic=m in evaluated_raise)
         if isinstance(fn, ast.FunctionDef):
             live[m] = fn
     I = ('var', init.args.args[0].arg)
@@ -230,6 +249,30 @@ def run(ctx, ck) -> None:
     am = cls.own.get('as_matrix')
     ok, why = c04.s_toeplitz(world, table, cls, am) if isinstance(am, ast.FunctionDef) else (False, 'as_matrix override vanished')
     ck.expect('Z6', ok, am or cls.node, why, f'as_matrix: {why}', instance='shared dense builder')
+
+
+def _shared_memos(ctx, ck, cls) -> None:
+    """Z12: what an operator stores in a module-level container is keyed by every field it was computed from (sa/memo.py).
+    Otherwise a second operator with the same key applies a kernel bound to the first one: T x is computed with another
+    operator's FFT size / band."""
+    from ..memo import TOP, memo_stores
+
+    world, table = ctx.world, ctx.table
+    toe_classes = [k for k in table.classes.values() if k.module is cls.module]
+    stores = memo_stores(world, table, toe_classes)
+    for st in stores:
+        inst = f'{st.cls.name}.{st.method.name} -> {st.container}'
+        missing = st.missing - {TOP}
+        if missing:
+            ck.bad('Z12', st.node, f'{st.cls.name}.{st.method.name} stores in the module-level {st.container} a value computed from the fields {sorted(st.value_deps - {TOP})} of the operator under a key that '
+                   f'only covers {sorted(st.key_deps)}: another operator with the same key and a different {", ".join(sorted(missing))} is applied with the stored one', instance=inst, semantic=True)
+        elif TOP in st.value_deps and not st.key_is_instance:
+            ck.incomplete('Z12', st.node, f'{st.cls.name}.{st.method.name} stores a value in the module-level {st.container} whose dependencies on the operator are not all known: {st.unknown[0] if st.unknown else ""}', instance=inst)
+        else:
+            ck.ok('Z12', st.node, f'the value stored in {st.container} depends on {sorted(st.value_deps)} of the operator, all part of the key ({sorted(st.key_deps)})', instance=inst)
+    ck.note(f'Z12: {len(stores)} stores into module-level containers from methods of the {len(toe_classes)} classes of {cls.module.name}')
+    if not stores:
+        ck.ok('Z12', cls.node, 'no method of the Toeplitz module stores a value in a module-level container: nothing computed from one operator is shared with another', instance='no shared memo', nontrivial=False)
 
 
 def _to_poly(t, symbols: dict):
@@ -358,6 +401,15 @@ def _dense_builder(ck, world: World) -> None:
               f'the dense builder returns {show(rt)} from a buffer that is not n**2 zeros', instance='row-major n x n')
 
 
+def _memoise_by_method(tree: ast.Module) -> None:
+    """Positive control for Z12: mv keeps its vectorised kernel (a bound method) in a module-level dict keyed by the method."""
+    from ..mutate import find_def
+
+    tree.body.insert(max(i for i, st in enumerate(tree.body) if isinstance(st, (ast.Import, ast.ImportFrom))) + 1, ast.parse('_KERNEL_MEMO = {}').body[0])
+    mv = find_def(tree, 'SymmetricBandToeplitzOperator.mv')
+    replace_expr(mv, "jnp.vectorize(self._get_func(), signature='(n),(k)->(n)')", "_KERNEL_MEMO.setdefault(self.method, jnp.vectorize(self._get_func(), signature='(n),(k)->(n)'))")
+
+
 def controls(world: World) -> list[Control]:
     return [
         Control('method-without-branch', lambda w: edit_def(w, TOE, 'SymmetricBandToeplitzOperator._get_func', lambda fn: remove_stmt(fn, "if self.method == 'direct':", prefix=True)), 'C09.Z1'),
@@ -368,5 +420,6 @@ def controls(world: World) -> list[Control]:
         Control('dense-offset-slip', lambda w: edit_def(w, TOE, 'dense_symmetric_band_toeplitz', lambda fn: replace_expr(fn, '-n * j + jnp.arange(m) * (n + 1)', '-n * j + jnp.arange(m) * n')), 'C09.Z9'),
         Control('overlap-buffer-too-short', lambda w: edit_def(w, TOE, 'SymmetricBandToeplitzOperator._apply_overlap_save', lambda fn: replace_expr(fn, 'total_length - overlap - l', 'total_length - overlap - l - half_band_width')), 'C09.Z10'),
         Control('overlap-output-shifted', lambda w: edit_def(w, TOE, 'SymmetricBandToeplitzOperator._apply_overlap_save', lambda fn: replace_expr(fn, 'y[half_band_width:half_band_width + l]', 'y[half_band_width:half_band_width + l - 1]')), 'C09.Z11'),
+        Control('memo-keyed-by-method-only', lambda w: variant(w, TOE, _memoise_by_method), 'C09.Z12'),
         Control('unguarded-negative-slice', lambda w: edit_def(w, TOE, 'SymmetricBandToeplitzOperator._apply_fft', lambda fn: remove_stmt(fn, 'if half_band_width == 0:', prefix=True)), 'C09.Z8'),
     ]
